@@ -21,3 +21,22 @@ claim("C06", "exploration",
       "computed by V8. Coverage statement within the grid, not a proof for all doubles.",
       "Trusts V8 (node 20) as the ECMAScript reference for the pinned tables, the serialiser in mc/core/ser.py, "
       "and that operands outside the grid behave like their grid neighbours.")
+
+claim("C09", "exploration",
+      "bounded exhaustive enumeration of regex pattern ASTs (by size) x all subjects up to a length x flag strata, "
+      "each match executed on the real engine and compared with an executable transcription of the ECMAScript matcher",
+      "Every pattern of AST size <= 3 over 16 atoms / 10 quantifiers / groups / 4 lookaround kinds against all 364 "
+      "subjects over {a,b,1} of length <= 5 (Python-level and script-level exec), every size-4 pattern against "
+      "121 subjects, flag strata i/m/s (thorough: size 5 in 8 slices, combined flags): match/no match, index and "
+      "every capture agree with the specification's backtracking matcher.",
+      "Trusts mc/oracle/regexref.py (diffed against V8 on 1.63 M pairs at build time); patterns beyond the size "
+      "bound and characters outside the subject alphabets are not explored.")
+claim("C16", "exploration",
+      "bounded exhaustive product enumeration method x receiver grid x argument grid (arity 0..2), each call "
+      "executed on the real engine and compared with a V8-derived expected-outcome table",
+      "Full product of the 20 implemented String.prototype methods, length, index access, String() and "
+      "String.fromCharCode over 14 receivers and the 16-value adversarial argument grid for arity <= 2 "
+      "(84k cases; thorough adds object/array/function arguments and long receivers): result, receiver "
+      "unchanged, and RangeError/TypeError by name.",
+      "Trusts V8 for the pinned tables; ASCII-only case mapping and code-point indexing are documented engine "
+      "restrictions and kept out of the grid.")
